@@ -1,13 +1,15 @@
 """C06 - one-shot applies to exactly the next key, or expires; it never lingers."""
 from props.common import *
+import os
 
 VAR = {"press": "one-shot-press", "release": "one-shot-release",
        "press-pcancel": "one-shot-press-pcancel", "release-pcancel": "one-shot-release-pcancel"}
 K = lambda k: {"t": "key", "k": k}
 
 
-def make(variant, T, red, kind="key", nos=1, keys=("a", "b", "c"), T2=None):
-    """T2: timeout of the second one-shot key when it differs from the first one's"""
+def make(variant, T, red, kind="key", nos=1, keys=("a", "b", "c"), T2=None, extra=None):
+    """T2: timeout of the second one-shot key when it differs from the first one's
+    extra: further physical keys {name: action} that are not tracked as plain keys by the monitor (macros ...)"""
     oskeys = list(keys[:nos])
     others = list(keys[nos:])
     outs = {"b": "y", "c": "z", "d": "1"}
@@ -20,7 +22,9 @@ def make(variant, T, red, kind="key", nos=1, keys=("a", "b", "c"), T2=None):
         layer[k] = {"t": "os", "variant": VAR[variant], "timeout": tof[k], "a": osact[k][0]}
     for k in others:
         layer[k] = K(outs[k])
-    desc = {"keys": list(keys), "layers": [layer], "defcfg": {"rapid-event-delay": red}}
+    for k, a in (extra or {}).items():
+        layer[k] = a
+    desc = {"keys": list(keys) + list(extra or {}), "layers": [layer], "defcfg": {"rapid-event-delay": red}}
     params = {"oskeys": [{"c": cfgdesc.code(k), "qs": [cfgdesc.code(q) for q in osact[k][1]], "T": tof[k]} for k in oskeys],
               "variant": variant, "T": max(tof.values()), "red": red,
               "others": [{"c": cfgdesc.code(k), "o": cfgdesc.code(outs[k])} for k in others]}
@@ -66,6 +70,17 @@ def directed_scripts(params, keys):
     S.append(tap(os_) + [["d", x], ["t", 1], ["d", y], ["t", 1], ["u", x], ["t", 1], ["u", y], ["t", 1]] + tap(x) + [["t", 2 * T]])
     S.append(tap(os_) + [["t", T + 3]] + tap(x) + [["t", 2 * T]])
     S.append(tap(os_) + [["d", x], ["t", T + 10], ["u", x], ["t", 2]] + tap(os_) + tap(y) + tap(x) + [["t", 2 * T]])
+    # the next key arrives on the last ticks before the timeout: the one-shot ends at its timeout at the latest (O8)
+    for g in (T - 4, T - 3, T - 2):
+        S.append(tap(os_) + [["t", max(g - 2, 0)]] + tap(x, 3) + [["t", 2 * T]])
+    # more than 16 stacked activations, every tap in step with the ticks (the 16-entry table wraps): still active, the
+    # next key is modified, the key after it is not
+    if params["variant"] in ("press", "release"):
+        for n in (16, 17, 18, 25):
+            sc = []
+            for _ in range(n):
+                sc += tap(os_)
+            S.append(sc + tap(x, 2) + tap(y, 2) + [["t", 2 * T]])
     return S
 
 
@@ -75,7 +90,8 @@ def run(tier, seed):
     rng = random.Random(seed)
     wd = workdir("c06")
     jobs_random, witness_jobs = [], []
-    for name, (desc, params) in family(tier):
+    fam = [] if os.environ.get("KVERIF_C06_RECORDED_ONLY") else family(tier)   # (debugging aid: skip the TLC instances)
+    for name, (desc, params) in fam:
         kbd = cfgdesc.render_kbd(desc)
         keys = [cfgdesc.code(k) for k in desc["keys"]]
         inst = {"name": "c06_" + name, "kbd": kbd, "keys": keys, "qmax": 3 if len(params["oskeys"]) == 1 else 2,
@@ -115,6 +131,23 @@ def run(tier, seed):
             scripts += [rand_history(rng, keys, rng.randint(6, 40), [0, 1, 2, 5, 39, 40, 41, 80], tail=120)
                         for _ in range(20 if tier == "quick" else 200)]
             jobs_random.append({"cfg": kbd, "params": params, "tag": "T40:%s:%s" % (v, kind), "scripts": scripts})
+    # default rapid-event-delay and a macro as the key that follows: other keys end a one-shot early, they never prolong it
+    digits = "q w e r t u i o p g "
+    for v in VAR:
+        desc, params = make(v, 40, 5, "key", 1, ("a", "b", "c"),
+                            extra={"d": {"t": "raw", "text": "(macro " + digits * 3 + ")"}, "e": {"t": "raw", "text": "(macro q w e)"}})
+        kbd = cfgdesc.render_kbd(desc)
+        keys = [cfgdesc.code(k) for k in desc["keys"]]
+        a_, b_, c_, d_, e_ = keys
+        tap = lambda k, g=1: [["d", k], ["t", g], ["u", k], ["t", g]]
+        scripts = directed_scripts(params, keys[:3])
+        scripts += [tap(a_) + tap(d_) + [["t", 150]] + tap(b_) + [["t", 100]],
+                    tap(a_) + [["t", 30]] + tap(e_) + [["t", 3]] + tap(d_) + [["t", 150]],
+                    tap(a_) + tap(e_) + tap(b_) + [["t", 100]],
+                    tap(a_) + [["t", 34]] + tap(d_) + [["t", 150]]]
+        scripts += [rand_history(rng, keys, rng.randint(6, 30), [0, 1, 2, 5, 6, 36, 39, 40, 41, 80], tail=150)
+                    for _ in range(15 if tier == "quick" else 150)]
+        jobs_random.append({"cfg": kbd, "params": params, "tag": "T40r5:%s" % v, "scripts": scripts})
     for v in VAR:
         desc, params = make(v, 60, 1, "key", 2, ("a", "b", "c"), T2=20)
         kbd = cfgdesc.render_kbd(desc)
